@@ -34,16 +34,30 @@ def main():
         # native falsification search: same obligation body, seeded random inputs in the declared ranges
         rng = random.Random(int(os.environ.get('VERIF_SEED', '0')) * 1000003 + 17)
         class RCtx(oblig.ConcreteCtx):
+            plan = 'random'
             def int(self, name, lo, hi):
                 if name in self.inputs: v = self.inputs[name]
                 else:
-                    k = rng.random()
-                    v = lo if k < 0.05 else hi if k < 0.1 else rng.randint(lo, hi)
+                    if self.plan == 'lo': v = lo
+                    elif self.plan == 'hi': v = hi
+                    elif self.plan.startswith('hi-'):          # every symbol at its maximum, the last ones one/two below
+                        v = hi
+                    else:
+                        k = rng.random()
+                        v = lo if k < 0.05 else hi if k < 0.1 else rng.randint(lo, hi)
                     self.inputs[name] = v
                 self.asked[name] = v
                 return v
-        for k in range(search):
-            c = RCtx({}, case)
+        plans = ['lo', 'hi', 'hi-1', 'hi-2'] + ['random'] * search
+        for k, plan in enumerate(plans):
+            c = RCtx({}, case); c.plan = plan
+            if plan in ('hi-1', 'hi-2'):
+                # first pass to learn the symbols, then lower the last one
+                probe = RCtx({}, case); probe.plan = 'hi'
+                try: ob.fn(probe)
+                except BaseException: pass
+                names = list(probe.asked)
+                if names: c.inputs = dict(probe.asked); c.inputs[names[-1]] = max(0, probe.asked[names[-1]] - int(plan[3:]))
             exc = None
             try: ob.fn(c)
             except oblig.Failure: continue
